@@ -1,5 +1,5 @@
 ------------------------------- MODULE TraceMap -------------------------------
-(* Events: Inv t op k | Res t r m g | Rel t g | Destroy g k | Final keys | Stuck | Crash | Reset ; Lin internal *)
+(* Events: Prefill keys | Inv t op k | Res t r m g | Rel t g | Destroy g k | Final keys | Stuck | Crash | Reset ; Lin internal *)
 EXTENDS Integers, Sequences, FiniteSets, TLC, Json, IOUtils
 TraceLog == ndJsonDeserialize(IOEnv.TRACE)
 Threads == 1..4
@@ -15,6 +15,7 @@ TNext == \/ Is("Inv") /\ A!Invoke(Ev.t, Ev.op, Ev.k)
          \/ Is("Res") /\ A!Respond(Ev.t, Ev.r, Ev.m, Ev.g)
          \/ Is("Rel") /\ A!Release(Ev.t, Ev.g)
          \/ Is("Destroy") /\ A!Destroy(Ev.g)
+         \/ Is("Prefill") /\ present' = present \cup ToSet(Ev.keys) /\ UNCHANGED <<pend, holders>>        \* sequential prefix logged as one event
          \/ Is("Final") /\ A!FinalOK(ToSet(Ev.keys)) /\ UNCHANGED <<present, pend, holders>>
          \/ l <= Len(TraceLog) /\ UNCHANGED l /\ \E t \in Threads : A!Lin(t)
          \/ Is("Reset") /\ present' = {} /\ pend' = [t \in Threads |-> A!None] /\ holders' = {}
